@@ -57,14 +57,49 @@ v4di __builtin_ia32_psrlv4di(v4di a, v4di n) { v4di r; for (int i = 0; i < 4; ++
 v4di __builtin_ia32_psllv4di(v4di a, v4di n) { v4di r; for (int i = 0; i < 4; ++i) r[i] = ((unsigned long long)n[i] > 63) ? 0 : (long long)((unsigned long long)a[i] << n[i]); return r; }
 // pmuludq: product of the LOW 32 bits of each 64-bit lane (in SHIM_STRICT mode the library's intent "operands fit 32
 // bits" is an assertion: a silent truncation is what C04 forbids)
+#ifdef SHIM_GHOST_MUL
+// Ghost instrumentation of the multiplication MODEL (verification state only, the returned value is unchanged).  The calls are
+// counted as (iteration SHIM_MUL_IT, ordinal in the iteration SHIM_MUL_J) for the first SHIM_MUL_NIT iterations of
+// SHIM_MUL_PERIOD calls each, so that a harness can tie "the j-th product of iteration i" to a ghost accumulator without any
+// change to the repository code: a product enters the exact sum SHIM_MUL_SUM with weight 2^SHIM_MUL_SHIFT[j] (-1: it belongs
+// to another accumulator), the operands of iteration SHIM_MUL_REC_AT are recorded, and the calls AFTER those iterations (the
+// recombination) are recorded in SHIM_MUL_FIN_* and carry the obligation "operand fits 32 bits" (inside the loops the library
+// deliberately feeds full lanes and uses their low halves).
+#ifndef SHIM_WIDE_BITS
+#define SHIM_WIDE_BITS 128
+#endif
+typedef unsigned __CPROVER_bitvector[SHIM_WIDE_BITS] shim_wide;
+unsigned long SHIM_MUL_IT, SHIM_MUL_NIT, SHIM_MUL_REC_AT;
+unsigned SHIM_MUL_J, SHIM_MUL_PERIOD = 1, SHIM_LANE;
+int SHIM_MUL_SHIFT[8];
+shim_wide SHIM_MUL_SUM;
+unsigned long SHIM_MUL_REC_A[8], SHIM_MUL_REC_B[8], SHIM_MUL_FIN_A[8], SHIM_MUL_FIN_B[8], SHIM_MUL_FIN_P[8];
+#endif
 v4di __builtin_ia32_pmuludq256(v8si a, v8si b) {
   v4di r;
   for (int i = 0; i < 4; ++i) {
-#ifdef SHIM_STRICT
+#if defined(SHIM_GHOST_MUL)
+    __CPROVER_assert(SHIM_MUL_IT < SHIM_MUL_NIT || i != (int)SHIM_LANE || (a[2 * i + 1] == 0 && b[2 * i + 1] == 0), "mul_epu32 operand exceeds 32 bits (silent truncation)");   /* one run per lane */
+#elif defined(SHIM_STRICT)
     __CPROVER_assert(a[2 * i + 1] == 0 && b[2 * i + 1] == 0, "mul_epu32 operand exceeds 32 bits (silent truncation)");
 #endif
     r[i] = (long long)((unsigned long long)(unsigned)a[2 * i] * (unsigned long long)(unsigned)b[2 * i]);
   }
+#ifdef SHIM_GHOST_MUL
+  {
+    const unsigned j = SHIM_MUL_J & 7;
+    const unsigned long oa = (unsigned)a[2 * SHIM_LANE], ob = (unsigned)b[2 * SHIM_LANE];
+    if (SHIM_MUL_IT < SHIM_MUL_NIT) {
+      if (SHIM_MUL_SHIFT[j] >= 0) SHIM_MUL_SUM += ((shim_wide)(unsigned long long)r[SHIM_LANE]) << SHIM_MUL_SHIFT[j];
+      if (SHIM_MUL_IT == SHIM_MUL_REC_AT) { SHIM_MUL_REC_A[j] = oa; SHIM_MUL_REC_B[j] = ob; }
+      SHIM_MUL_J = j + 1;
+      if (SHIM_MUL_J == SHIM_MUL_PERIOD) { SHIM_MUL_J = 0; SHIM_MUL_IT++; }
+    } else {
+      SHIM_MUL_FIN_A[j] = oa; SHIM_MUL_FIN_B[j] = ob; SHIM_MUL_FIN_P[j] = (unsigned long long)r[SHIM_LANE];
+      SHIM_MUL_J = j + 1;
+    }
+  }
+#endif
   return r;
 }
 v4di __builtin_ia32_punpcklqdq256(v4di a, v4di b) { v4di r = {a[0], b[0], a[2], b[2]}; return r; }
